@@ -94,6 +94,48 @@ def run(sid, checks, tier='quick'):
     return 0
 
 
+def run_wt(sid, checks, tier='quick'):
+    """Like run(), but in a scratch worktree of /repo (VERIF_REPO points the checks at it): /repo stays untouched, runs can overlap."""
+    dst = os.path.join(SEEDED, sid)
+    meta = json.load(open(os.path.join(dst, 'meta.json')))
+    checks = checks or [meta['property']]
+    wt = '/tmp/wt/seedrun_%s' % sid
+    sh('git -C /repo worktree remove --force %s' % wt)
+    r = sh('git -C /repo worktree add --detach %s HEAD' % wt)
+    if r.returncode:
+        print(r.stderr)
+        return 1
+    out = []
+    try:
+        shutil.copy('/repo/lib/yaml/_yaml.cpython-312-x86_64-linux-gnu.so', wt + '/lib/yaml/')
+        shutil.copy('/repo/yaml/_yaml.c', wt + '/yaml/')
+        a = sh(['git', '-C', wt, 'apply', os.path.join(dst, 'patch.diff')])
+        if a.returncode:
+            print('%s: patch does not apply: %s' % (sid, a.stderr[:200]))
+            meta.setdefault('detected_by', {})['apply'] = {'verdict': 'patch no longer applies to HEAD', 'violations_listed': 0, 'first': a.stderr[:200]}
+            json.dump(meta, open(os.path.join(dst, 'meta.json'), 'w'), indent=1)
+            return 1
+        for c in checks:
+            t0 = time.time()
+            r = sh([os.path.join(ROOT, 'check'), c, '--tier', tier], cwd=ROOT, env=dict(os.environ, VERIF_NO_EVIDENCE='1', VERIF_REPO=wt, VERIF_JOBS='6'))
+            nv = sum(1 for l in r.stdout.splitlines() if l.startswith('VIOLATION'))
+            verdict = 'caught' if r.returncode == 1 and nv else ('inconclusive' if r.returncode == 2 else 'missed')
+            first = next((l for l in r.stdout.splitlines() if l.startswith('  detail')), '')[:400]
+            print('%s under %s [%s]: rc=%d violations=%d %.0fs -> %s' % (sid, c, tier, r.returncode, nv, time.time() - t0, verdict))
+            meta.setdefault('detected_by', {})[c + ':' + tier] = {'verdict': verdict, 'violations_listed': nv, 'first': first[:300]}
+    finally:
+        sh('git -C /repo worktree remove --force %s' % wt)
+    json.dump(meta, open(os.path.join(dst, 'meta.json'), 'w'), indent=1)
+    return 0
+
+
+def runall(tier='quick', jobs=3):
+    import concurrent.futures
+    ids = sorted(d for d in os.listdir(SEEDED) if os.path.exists(os.path.join(SEEDED, d, 'meta.json')))
+    with concurrent.futures.ThreadPoolExecutor(jobs) as ex:
+        list(ex.map(lambda sid: run_wt(sid, [], tier), ids))
+
+
 def table():
     for sid in sorted(os.listdir(SEEDED)):
         try:
@@ -115,3 +157,8 @@ if __name__ == '__main__':
         sys.exit(run(sys.argv[2], args, tier))
     if cmd == 'table':
         table()
+    if cmd == 'runwt':
+        args = [a for a in sys.argv[3:] if not a.startswith('--')]
+        sys.exit(run_wt(sys.argv[2], args, 'thorough' if '--thorough' in sys.argv else 'quick'))
+    if cmd == 'runall':
+        runall('thorough' if '--thorough' in sys.argv else 'quick')
